@@ -63,6 +63,7 @@ type History struct {
 	// price forest: parent[i] is the index of the parent commodity of coms[i] (-1 for root)
 	parent []int
 	priced map[[3]string]bool // (day, a, b) with a<b: a price for the pair was declared that day
+	never  map[int]bool       // Prices == 2: edges that are never declared
 	descN  int
 }
 
@@ -368,7 +369,7 @@ func DrawPrice(t *rapid.T) string {
 
 func (h *History) emitPrice(i int) {
 	// declare the edge between coms[i] and its parent, in either direction
-	if h.parent[i] < 0 {
+	if h.parent[i] < 0 || h.never[i] {
 		return
 	}
 	t := h.t
@@ -395,12 +396,31 @@ func (h *History) run() {
 			h.emitPrice(i)
 		}
 	}
+	if cfg.Prices == 2 {
+		// some edges are declared on time, some only later (by a price action), some never
+		h.never = map[int]bool{}
+		for i := range h.coms {
+			switch rapid.SampledFrom([]int{0, 0, 0, 1, 2}).Draw(t, "priceAvail") {
+			case 0:
+				h.emitPrice(i)
+			case 2:
+				h.never[i] = true
+			}
+		}
+	}
 	// open two accounts to start with
-	n := rapid.IntRange(1, cfg.MaxActions).Draw(t, "nActions")
+	lo := 4
+	if lo > cfg.MaxActions {
+		lo = cfg.MaxActions
+	}
+	n := rapid.IntRange(lo, cfg.MaxActions).Draw(t, "nActions")
+	acts := []int{0, 0, 1, 1, 1, 1, 1, 2, 2, 3, 4, 4, 5, 6, 6, 7}
+	if cfg.Prices > 0 {
+		acts = append(acts, 4, 4, 4, 1)
+	}
 	for step := 0; step < n; step++ {
 		h.advance(0)
-		act := rapid.SampledFrom([]int{0, 0, 1, 1, 1, 1, 1, 2, 2, 3, 4, 4, 5, 6, 6, 7}).Draw(t, "act")
-		h.step(act)
+		h.step(rapid.SampledFrom(acts).Draw(t, "act"))
 	}
 }
 
